@@ -43,6 +43,7 @@ Report ==
   /\ Rep("OnlyNeededOnce", OnlyNeededOnce(D, O))
   /\ Rep("DupNoEffect", DupNoEffect(P, O, Ev))
   /\ Rep("NoDoubleDispatch", NoDoubleDispatch(O))
+  /\ Rep("StartOnce", StartOnce(D, O, RerunSeen))
   /\ Rep("WithinLimit", WithinLimit(D, O))
   /\ Rep("OnePerIndex", OnePerIndex(D, O, RerunSeen))
   /\ Rep("CompleteAfterAll", CompleteAfterAll(D, O))
